@@ -1133,7 +1133,7 @@ class AbsSymEx(SymEx):
                 loc = self.new_temp("T")
             args = [self.eval(a, env, fn) for a in n.get("a", [])]
             # implicit (body-less) copy construction keeps its aggregate semantics
-            if len(args) == 1 and isinstance(args[0], Loc) and SymEx.lookup(self, n, fn) is None and n.get("cdecl") is None:
+            if len(args) == 1 and isinstance(args[0], Loc) and SymEx.lookup(self, n, fn) is None and (n.get("copy") or n.get("pn") == [""]):
                 self.copy_agg(loc, args[0], n.get("l"))
                 return loc
             return self._opaque_entry(self, n, n.get("callee", ""), loc, args, fn)
